@@ -19,12 +19,19 @@
     Tree_Rem                      2 destruct, memcpy (predecessor), free              mapRem
     Tree_Clear_Entry / Table_Clear / *_Del   2 destruct per entry                     mapClear / del
     Box_Del                       del of the pointee;  Box_Assign: Box_Ref only (pointer copy, no del)   ElemKind.box
+
+  Type checks (`cast(<argument>)` rows, and `CelloGen.Own.typeChecks`: where the check stands relative to the first effect):
+    Table_Set_Move / Tree_Set     cast(key), cast(val) BEFORE memset / Tree_Alloc / assign            mapSetArgs: a type-refused set is inert
+    Table_Rem / Tree_Rem          cast(key) BEFORE the lookup and the destructs                       mapRemWrong
+    Array_Push / Push_At / Concat / New   no cast: nitems and the records first, the element's own Assign checks   arrayPushWrong, … (not atomic)
+    List_Push / Push_At           no cast: List_Alloc first, the element's own Assign checks, nothing linked     listPushWrong (inert)
+    Array_Set / List_Set, *_Rem   no cast: the element's own Assign / Cmp checks before it changes anything     seqSetWrong / seqRemWrong
 -/
 namespace Cello.Own
 
 def modelledProfile : List (String × List String) := [
   ("Array_Alloc", ["memset"]),
-  ("Array_New", ["malloc", "throw", "Array_Alloc", "assign"]),
+  ("Array_New", ["cast(get(args,$I(0)))", "malloc", "throw", "Array_Alloc", "assign"]),
   ("Array_Del", ["destruct", "free"]),
   ("Array_Clear", ["destruct", "free"]),
   ("Array_Assign", ["return_if_self_is_obj", "Array_Clear", "malloc", "throw", "Array_Alloc", "assign", "Array_Push"]),
@@ -40,7 +47,7 @@ def modelledProfile : List (String × List String) := [
   ("Array_Sort_Partition", ["swap", "swap", "swap"]),
   ("Array_Resize", ["Array_Clear", "destruct", "realloc", "throw"]),
   ("List_Alloc", ["calloc", "throw"]),
-  ("List_New", ["List_Push"]),
+  ("List_New", ["cast(get(args,$I(0)))", "List_Push"]),
   ("List_Clear", ["destruct", "List_Free"]),
   ("List_Del", ["List_Clear"]),
   ("List_Assign", ["return_if_self_is_obj", "List_Clear", "List_Push"]),
@@ -52,13 +59,13 @@ def modelledProfile : List (String × List String) := [
   ("List_Pop", ["throw", "List_Unlink", "destruct", "List_Free"]),
   ("List_Set", ["assign", "List_At"]),
   ("List_Resize", ["List_Clear", "List_Unlink", "destruct", "List_Free", "List_Alloc", "List_Link"]),
-  ("Table_New", ["throw", "calloc", "calloc", "calloc", "throw", "Table_Set_Move"]),
+  ("Table_New", ["cast(get(args,$(Int,0)))", "cast(get(args,$(Int,1)))", "throw", "calloc", "calloc", "calloc", "throw", "Table_Set_Move"]),
   ("Table_Del", ["destruct", "destruct", "free", "free", "free"]),
   ("Table_Clear", ["destruct", "destruct", "free"]),
   ("Table_Assign", ["return_if_self_is_obj", "Table_Clear", "calloc", "realloc", "realloc", "throw", "memset", "memset", "Table_Set_Move"]),
-  ("Table_Set_Move", ["memset", "memset", "memcpy", "memcpy", "memcpy", "memcpy", "assign", "assign", "memcpy", "destruct", "destruct", "memcpy", "memcpy", "memcpy", "memcpy"]),
+  ("Table_Set_Move", ["cast(key)", "cast(val)", "memset", "memset", "memcpy", "memcpy", "memcpy", "memcpy", "assign", "assign", "memcpy", "destruct", "destruct", "memcpy", "memcpy", "memcpy", "memcpy"]),
   ("Table_Rehash", ["calloc", "throw", "Table_Set_Move", "free"]),
-  ("Table_Rem", ["throw", "throw", "destruct", "destruct", "memset", "memcpy", "memset", "Table_Resize_Less"]),
+  ("Table_Rem", ["cast(key)", "throw", "throw", "destruct", "destruct", "memset", "memcpy", "memset", "Table_Resize_Less"]),
   ("Table_Set", ["Table_Rehash", "Table_Set_Move", "Table_Resize_More"]),
   ("Table_Resize", ["Table_Clear", "throw", "Table_Rehash"]),
   ("Tree_Alloc", ["calloc", "throw"]),
@@ -67,13 +74,45 @@ def modelledProfile : List (String × List String) := [
   ("Tree_Clear", ["Tree_Clear_Entry"]),
   ("Tree_Del", ["Tree_Clear"]),
   ("Tree_Assign", ["return_if_self_is_obj", "Tree_Clear", "Tree_Set"]),
-  ("Tree_Set", ["Tree_Alloc", "assign", "assign", "Tree_Set_Fix", "assign", "assign", "Tree_Alloc", "assign", "assign", "Tree_Set_Fix", "Tree_Alloc", "assign", "assign", "Tree_Set_Fix"]),
-  ("Tree_Rem", ["throw", "destruct", "destruct", "memcpy", "Tree_Rem_Fix", "Tree_Replace", "free"]),
+  ("Tree_Set", ["cast(key)", "cast(val)", "Tree_Alloc", "assign", "assign", "Tree_Set_Fix", "assign", "assign", "Tree_Alloc", "assign", "assign", "Tree_Set_Fix", "Tree_Alloc", "assign", "assign", "Tree_Set_Fix"]),
+  ("Tree_Rem", ["cast(key)", "throw", "destruct", "destruct", "memcpy", "Tree_Rem_Fix", "Tree_Replace", "free"]),
   ("Tree_Resize", ["Tree_Clear", "throw"]),
   ("Box_New", ["Box_Assign"]),
   ("Box_Del", ["Box_Deref", "del", "Box_Ref"]),
   ("Box_Assign", ["Box_Ref", "Box_Ref"])]
 
+
+/-- the rows of `CelloGen.Own.typeChecks` the model's type-refused calls were written against: for the functions whose
+    refusal is atomic because the `cast` of every element argument precedes the first effect … -/
+def modelledTypeChecksFirst : List (String × List String × String × List String) := [
+  ("Table_Set_Move", ["key", "val"], "memset", []),
+  ("Table_Rem", ["key"], "destruct", []),
+  ("Tree_Set", ["key", "val"], "Tree_Alloc", []),
+  ("Tree_Rem", ["key"], "destruct", [])]
+
+/-- … and for the functions that never cast an element argument (the stored element's own `Assign` / `Cmp` is the type
+    check, reached after the first effect listed here; the only casts are those of the constructors' type arguments) -/
+def modelledTypeChecksLate : List (String × List String × String × List String) := [
+  ("Array_New", ["get(args,$I(0))"], "nitems=", []),
+  ("Array_Concat", [], "nitems+=", []),
+  ("Array_Rem", [], "Array_Pop_At", []),
+  ("Array_Push", [], "nitems++", []),
+  ("Array_Push_At", [], "nitems++", []),
+  ("Array_Set", [], "assign", []),
+  ("List_New", ["get(args,$I(0))"], "nitems=", []),
+  ("List_Concat", [], "List_Push", []),
+  ("List_Rem", [], "List_Unlink", []),
+  ("List_Push", [], "List_Alloc", []),
+  ("List_Push_At", [], "List_At", []),
+  ("List_Set", [], "assign", []),
+  ("Table_New", ["get(args,$(Int,0))", "get(args,$(Int,1))"], "nitems=", []),
+  ("Table_Set", [], "Table_Rehash", []),
+  ("Tree_New", [], "nitems=", [])]
+
+/-- the row of a function in a `typeChecks` table -/
+def typeCheckOf (tbl : List (String × List String × String × List String)) (fn : String) :
+    Option (List String × String × List String) :=
+  (tbl.find? (fun r => r.1 == fn)).map (·.2)
 
 def modelledInstances : List (String × String × List String) := [
   ("Array", "New", ["Array_New", "Array_Del"]),
